@@ -61,7 +61,7 @@ class Case:
 
 
 def make_reference(case: Case, seed: int, n_genes: int, sec_near_start: float = 0.0,
-                   context: float = 0.0, sec_lys: float = 0.7):
+                   context: float = 0.0, sec_lys: float = 0.7, start_context: float = 0.5):
     """fake genome + annotation (+ proteome by translation), written with the
     repository's writers as util/fuzz_test.py does."""
     _imports()
@@ -78,6 +78,12 @@ def make_reference(case: Case, seed: int, n_genes: int, sec_near_start: float = 
                 try:
                     if plant_sec(anno, genome, prng, tx_id, lys_prob=sec_lys):
                         case.meta.setdefault('planted_sec', []).append(tx_id)
+                        # half of them: a long in-frame 5'UTR run without K / R / stop in front of
+                        # the ATG and no K / R between the ATG and the Sec — the start codon then
+                        # sits in the SECOND half of its cleavage-graph node and the Sec in the same
+                        # node (truncate_left re-bases the Sec positions of the kept part)
+                        if prng.random() < start_context and plant_start_context(anno, genome, prng, tx_id):
+                            case.meta.setdefault('planted_start_context', []).append(tx_id)
                 except Exception:   # noqa
                     pass
     if context > 0:
@@ -910,7 +916,7 @@ def dense_variants(anno, genome, tx_id: str, rng: random.Random, n: int, max_siz
     tx_seq = tx_model.get_transcript_sequence(genome[tx_model.transcript.chrom])
     tx_len = len(tx_seq.seq)
     foci = [rng.randrange(tx_len)]
-    kinds = {'sec': [], 'start': [], 'stop': [], 'junction': []}
+    kinds = {'sec': [], 'start': [], 'stop': [], 'junction': [], 'sec_prefix': []}
     if tx_seq.orf:
         foci += [int(tx_seq.orf.start) + 3, int(tx_seq.orf.end), int(tx_seq.orf.start) + rng.randrange(
             3, max(4, int(tx_seq.orf.end) - int(tx_seq.orf.start)))]
@@ -919,6 +925,9 @@ def dense_variants(anno, genome, tx_id: str, rng: random.Random, n: int, max_siz
     for s in tx_seq.selenocysteine:
         foci.append(int(s.start))
         kinds['sec'].append(int(s.start))
+        # between the start codon and a Sec a few codons behind it
+        if tx_seq.orf and 6 <= int(s.start) - int(tx_seq.orf.start) <= 60:
+            kinds['sec_prefix'].append((int(tx_seq.orf.start) + 3 + int(s.start)) // 2)
     acc = 0
     for ex in (tx_model.exon if tx_model.transcript.strand == 1 else tx_model.exon[::-1])[:-1]:
         acc += len(ex.location)
@@ -1037,6 +1046,36 @@ def plant_context(anno, genome, rng: random.Random, tx_id: str):
         if ok:
             return (p + off, alt, motif)
     return None
+
+
+NEUTRAL_CODONS = ['GCT', 'GGT', 'TCT', 'CCT', 'CTG', 'ACT', 'GTT', 'GAT', 'GAA', 'AAC', 'CAG', 'TTC',
+                  'TAC', 'ATC']
+
+
+def plant_start_context(anno, genome, rng: random.Random, tx_id: str) -> bool:
+    """codons without K / R / stop / M in the in-frame 5'UTR stretch in front of the start codon
+    (10-22 codons, as far as the UTR reaches) and between the start codon and the first annotated
+    Sec; codons split by an intron or holding an annotated Sec are left alone"""
+    tx_model = anno.transcripts[tx_id]
+    tx_seq = tx_model.get_transcript_sequence(genome[tx_model.transcript.chrom])
+    if not tx_seq.orf:
+        return False
+    o0 = int(tx_seq.orf.start)
+    secs = sorted(int(x.start) for x in tx_seq.selenocysteine)
+    n_up = min(o0 // 3, rng.randint(10, 22))
+    if n_up < 6:
+        return False
+    done = 0
+    for i in range(1, n_up + 1):
+        if set_tx_bases(anno, genome, tx_id, o0 - 3 * i, rng.choice(NEUTRAL_CODONS)):
+            done += 1
+        else:
+            break
+    first_sec = next((x for x in secs if x > o0), None)
+    if first_sec is not None and (first_sec - o0) % 3 == 0:
+        for p in range(o0 + 3, first_sec, 3):
+            set_tx_bases(anno, genome, tx_id, p, rng.choice(NEUTRAL_CODONS))
+    return done >= 6
 
 
 def plant_sec(anno, genome, rng: random.Random, tx_id: str, near_start: bool = True,
